@@ -36,18 +36,17 @@ Proof. exact constraints_reachable_thm. Qed.
 Print Assumptions C10_constraints_reachable.
 
 (** a ConstraintViolation answer of INSERT ... VALUES is justified: appending the rows would
-    violate a declared constraint (for tables whose keys are declared in column order) *)
+    violate a declared constraint (PRIMARY KEY, UNIQUE, UNIQUE INDEX, NOT NULL or CHECK) *)
 Theorem C10_rejecting_is_sound :
   forall d ti t rows,
-    Inv d -> nth_error (d_tabs d) ti = Some t -> keys_in_col_order (t_sch t) = true ->
+    Inv d -> nth_error (d_tabs d) ti = Some t ->
     snd (step d (SInsert ti rows)) = RErrConstraint ->
     ~ constraints_hold (set_rows t (t_rows t ++ rows)).
 Proof. exact rejecting_is_sound_thm. Qed.
 Print Assumptions C10_rejecting_is_sound.
 
 (** ... which is false for UPDATE (new rows are validated against the pre-statement table:
-    UPDATE t SET c0 = c0 + 1 over keys {1,2} is rejected) and for keys declared out of column
-    order (PRIMARY KEY (c1,c0) holding (1,2): inserting (2,1) is rejected) *)
+    UPDATE t SET c0 = c0 + 1 over keys {1,2} is rejected) *)
 Theorem C10_rejecting_is_sound_refuted_update :
   exists d t asg,
     Inv d /\ nth_error (d_tabs d) 0 = Some t
@@ -56,13 +55,26 @@ Theorem C10_rejecting_is_sound_refuted_update :
 Proof. exact update_rejection_unsound. Qed.
 Print Assumptions C10_rejecting_is_sound_refuted_update.
 
-Theorem C10_rejecting_is_sound_refuted_column_order :
-  exists d t rows,
-    Inv d /\ nth_error (d_tabs d) 0 = Some t
-    /\ snd (step d (SInsert 0 rows)) = RErrConstraint
-    /\ constraints_hold (set_rows t (t_rows t ++ rows)).
-Proof. exact column_order_rejection_unsound. Qed.
-Print Assumptions C10_rejecting_is_sound_refuted_column_order.
+(** repaired: with PRIMARY KEY (c1,c0) holding (1,2,_), (2,1,_) is accepted and a second (1,2,_)
+    is rejected (it was the other way round while the probe key was built in column order) *)
+Theorem C10_column_order_now_sound :
+  exists d,
+    Inv d
+    /\ map t_rows (d_tabs d) = [[[Some 1%Z; Some 2%Z; Some 0%Z]]]
+    /\ map (fun t => s_pk (t_sch t)) (d_tabs d) = [Some [1; 0]]
+    /\ snd (step d (SInsert 0 [[Some 2%Z; Some 1%Z; Some 0%Z]])) = ROk 1
+    /\ snd (step d (SInsert 0 [[Some 1%Z; Some 2%Z; Some 1%Z]])) = RErrConstraint.
+Proof. exact column_order_now_sound. Qed.
+Print Assumptions C10_column_order_now_sound.
+
+(** The three classes repaired in the tree (update-ignores-unique-index,
+    append-mode-bulk-transfer-duplicate-pk, composite-key-validated-in-column-order): their former
+    witnesses are now histories outside every known class whose last statement is rejected. *)
+Theorem C10_repaired_statement_is_rejected :
+  forall schemas ss s, c10_repaired schemas ss s ->
+  Inv (fst (step (run (db_init schemas) ss) s)) /\ snd (step (run (db_init schemas) ss) s) = RErrConstraint.
+Proof. exact c10_repaired_holds. Qed.
+Print Assumptions C10_repaired_statement_is_rejected.
 
 (** The statement without the side condition is false of the faithful model.  One witness per
     known class: [c10_witness schemas history stmt] = the history is outside every known class
@@ -94,24 +106,32 @@ Theorem C10_refuted_unique_index_batch_insert :
 Proof. exact wit_batch_insert_unique_index. Qed.
 Print Assumptions C10_refuted_unique_index_batch_insert.
 
-Theorem C10_refuted_update_ignores_unique_index :
+Theorem C10_refuted_multirow_update_same_unique_index_key :
   c10_witness [t_pk0] [SCreateIndex 1 0 true [1%nat]; SInsert 0 [i3 1 10 0; i3 2 20 0]]
-              (SUpdate 0 [(1%nat, EConst (Some 10))] (Some (PCmpC 0 OEq 2))).
-Proof. exact wit_update_ignores_unique_index. Qed.
-Print Assumptions C10_refuted_update_ignores_unique_index.
+              (SUpdate 0 [(1%nat, EConst (Some 30))] None).
+Proof. exact wit_multirow_update_unique_index. Qed.
+Print Assumptions C10_refuted_multirow_update_same_unique_index_key.
 
-Theorem C10_refuted_append_mode_bulk_transfer :
-  c10_witness [t_pk0; mk_schema 3 [true; false; false] None [] []]
-              [SInsert 0 [i3 1 0 0]; SInsert 0 [i3 2 0 0]; SInsert 0 [i3 3 0 0]; SInsert 0 [i3 4 0 0];
-               SInsert 1 [i3 2 9 9]]
-              (SInsertSelect 0 1 []).
-Proof. exact wit_append_mode_bulk. Qed.
-Print Assumptions C10_refuted_append_mode_bulk_transfer.
+Theorem C10_repaired_update_unique_index :
+  c10_repaired [t_pk0] [SCreateIndex 1 0 true [1%nat]; SInsert 0 [i3 1 10 0; i3 2 20 0]]
+               (SUpdate 0 [(1%nat, EConst (Some 10))] (Some (PCmpC 0 OEq 2))).
+Proof. exact rep_update_unique_index. Qed.
+Print Assumptions C10_repaired_update_unique_index.
 
-Theorem C10_refuted_composite_key_column_order :
-  c10_witness [t_plain] [SInsert 0 [i3 1 2 0]; SAddPk 0 [1%nat; 0%nat]] (SInsert 0 [i3 1 2 1]).
-Proof. exact wit_key_column_order. Qed.
-Print Assumptions C10_refuted_composite_key_column_order.
+Theorem C10_repaired_append_mode_bulk_transfer :
+  c10_repaired [t_pk0; mk_schema 3 [true; false; false] None [] []]
+               [SInsert 0 [i3 1 0 0]; SInsert 0 [i3 2 0 0]; SInsert 0 [i3 3 0 0]; SInsert 0 [i3 4 0 0];
+                SInsert 1 [i3 2 9 9]]
+               (SInsertSelect 0 1 []).
+Proof. exact rep_append_mode_bulk. Qed.
+Print Assumptions C10_repaired_append_mode_bulk_transfer.
+
+Theorem C10_repaired_composite_key_column_order :
+  c10_repaired [mk_schema 3 [true; true; false] (Some [1%nat; 0%nat]) [] []]
+               [SInsert 0 [i3 1 2 0]; SInsert 0 [i3 2 1 0]]
+               (SInsert 0 [i3 1 2 1]).
+Proof. exact rep_key_column_order. Qed.
+Print Assumptions C10_repaired_composite_key_column_order.
 
 Theorem C10_refuted_create_unique_index_over_duplicates :
   c10_witness [t_pk0] [SInsert 0 [i3 1 10 0; i3 2 10 0]] (SCreateIndex 1 0 true [1%nat]).
